@@ -40,6 +40,17 @@ def object_list(thorough):
         for d, v in picked[:(16 if thorough else 8)]:
             out.append((cls, v))
             BASE_OF[len(out) - 1] = obj           # differs from the template in one field
+        # an enumeration-valued field given as the plain wire number (the constructor takes it where it converts): the object
+        # the library calls equal to the template has to be rendered like it
+        if attr.has(cls) and seen_cls[cls] == 1:
+            for f in attr.fields(cls):
+                v = getattr(obj, f.name, None)
+                if f.init and isinstance(v, enum.Enum) and isinstance(getattr(v, 'value', None), int) and not isinstance(v.value, bool):
+                    try:
+                        out.append((cls, attr.evolve(obj, **{f.name.lstrip('_'): int(v.value)})))
+                        BASE_OF[len(out) - 1] = obj
+                    except Exception:  # pylint: disable=broad-except
+                        continue
         # text that is hostile to a renderer (format fields, percent directives, several lines): in the first text-valued field
         # the constructor lets it into
         if attr.has(cls) and seen_cls[cls] == 1:
@@ -111,7 +122,9 @@ def main():
         # (a set large enough for colliding hash slots: only then does the iteration order follow the insertion order)
         caps = list(MySQLCapability)[::2]
         synth.append({'outer': dict(d), 'flags': set(caps if env % 2 == 0 else reversed(caps)),
-                      'names': set(['x%d' % i for i in range(12)] if env % 2 == 0 else ['x%d' % i for i in reversed(range(12))])})
+                      'names': set(['x%d' % i for i in range(12)] if env % 2 == 0 else ['x%d' % i for i in reversed(range(12))]),
+                      'frozen_flags': frozenset(caps if env % 2 == 0 else reversed(caps)),
+                      'frozen_names': frozenset(['y%d' % i for i in range(12)] if env % 2 == 0 else ['y%d' % i for i in reversed(range(12))])})
     holder_cls = type(objects.holder(None))
     for v in synth:
         objs.append((holder_cls, objects.holder(v)))
